@@ -603,6 +603,8 @@ def _main(ck, bdir, cat, rng, scratch, fast, tier):
                 h["payload"] = p.hex()
             hist.append(h)
         system = run.system(mc)
+        if mc == "*":
+            system["models"] = sorted(cat)
         clocks = synth.materialise(td, system, hist, models=emuhist.require_for(set(system["models"])))
         rr = emu.runtool(bdir, "ovnidump", [td], timeout=60)
         out = rr.out.decode("latin1", "replace")
@@ -614,18 +616,25 @@ def _main(ck, bdir, cat, rng, scratch, fast, tier):
         return {"verdict": rr.verdict, "got": [got.get(c, []) for c in clocks], "stdout": out[-20000:], "stderr": rr.text[-3000:]}
 
     items = sorted(groups.items())
+    # the same cases once more in traces that mix the models: the events of ALL models ordered by (category,
+    # value, model) and the reverse, so that events whose codes differ in the model byte only are neighbours
+    nvec = len({d["vec"] for d in dcases})
+    for k in sorted({d["vec"] for d in dcases})[:2 if tier == "quick" else nvec]:
+        ds = sorted((d for d in dcases if d["vec"] == k), key=lambda d: (d["c"], d["v"], d["mc"]))
+        items.append((("*", k), ds))
+        items.append((("*", k), ds[::-1]))
     dres = core.pmap(dump, items)
     ndec = 0
     for ((mc, k), ds), o in zip(items, dres):
         if o["verdict"] != "ok" and not (o["verdict"] == "exit0-without-ok"):
             ck.violation("ovnidump %s on a trace holding the listed events of model %s (argument vector %d)"
-                         % (o["verdict"], cat[mc]["name"], k),
+                         % (o["verdict"], cat[mc]["name"] if mc in cat else "(all models, mixed)", k),
                          {"stdout.txt": o["stdout"], "stderr.txt": o["stderr"], "cases.json": ds}, sig="ovnidump:" + o["verdict"])
             continue
         for d, g in zip(ds, o["got"]):
             e = event_of(cat, d["mc"], d["c"], d["v"])
             x = expect[d["id"]]
-            ck.case("decode:%s:%d" % (e["mcv"], d["vec"]), nontrivial=bool(e["args"]))
+            ck.case("decode:%s:%d%s" % (e["mcv"], d["vec"], ":mixed" if mc == "*" else ""), nontrivial=bool(e["args"]))
             if not x["ok"]:
                 ck.notes.setdefault("decode_unspecified", []).append(e["mcv"])
                 continue
